@@ -248,6 +248,11 @@ def check_C02(tier, seed):
             three = [p for p in three if count_nodes(p["cond"], "cmp") + count_nodes(p["cond"], "in") == 3]
             three = rng.sample(three, min(len(three), 1500 if quick else 40000))
             progs += three + three          # each on two worlds: the interesting cases depend on the enumeration order of the data
+            # a conjunction as the first operand of a disjunction with a projected selection: duplicate suppression of the
+            # conjunction's false outputs decides whether the other branch is tried - several worlds each
+            shaped = [p for p in three if p["cond"]["k"] == "or" and p["cond"]["l"]["k"] == "and"
+                      and p["desc"] == "entity"]
+            progs += shaped * (6 if quick else 10)
         for p in progs:
             for _ in range(1 if quick else 2):
                 W, doms = _world_and_doms(rng, nv, quick)
